@@ -1085,8 +1085,18 @@ class Exec:
         c = s.truth_st(st, s.ev(st, n.test))
         cs = simplify(c)
         a = st.fork(); a.pc.append(c); b = st.fork(); b.pc.append(Not(c))
+        s.narrow(a, n.test, True); s.narrow(b, n.test, False)
         if not is_false(cs): yield from s.run(a, n.body, ctx)          # statically dead branches (type tests on the static type) are not executed
         if not is_true(cs): yield from s.run(b, n.orelse, ctx)
+    def narrow(s, st, test, positive):
+        """flow typing: in the branch where isinstance(x, C) is known to hold (the path condition says so), the local x gets the static class C"""
+        if isinstance(test, ast.UnaryOp) and isinstance(test.op, ast.Not): return s.narrow(st, test.operand, not positive)
+        if not positive: return
+        if isinstance(test, ast.Call) and isinstance(test.func, ast.Name) and test.func.id == 'isinstance' and len(test.args) == 2 and isinstance(test.args[0], ast.Name):
+            cn = test.args[1].id if isinstance(test.args[1], ast.Name) else (test.args[1].attr if isinstance(test.args[1], ast.Attribute) else None)
+            x = st.env.get(test.args[0].id)
+            if cn in s.p.classes and isinstance(x, SV) and x.ty.kind == 'ref' and x.ty.arg in s.p.classes and x.ty.arg in s.p.mro(cn) and x.ty.arg != cn:
+                st.env = dict(st.env); st.env[test.args[0].id] = SV(x.t, Ref(cn))
     def pattern_cond(s, st, pat, v, binds):
         if isinstance(pat, ast.MatchAs):
             if pat.pattern is None:
@@ -1551,7 +1561,11 @@ def generate(ex, owner, name, kind=None):
                 osrc, fld = fld.split(':'); slf = ex.spec_ev(o2, ast.parse(osrc, mode='eval').body)
             else: slf = o2.old_env['self']
             if not isinstance(lam, ast.Lambda):
-                ex.write(o2, slf.t, slf.ty.arg, fld, ex.spec_ev(o2, lam).t); continue
+                try: gv_ = ex.spec_ev(o2, lam).t
+                except Unsupported as ue_:
+                    if str(ue_).startswith('name '): continue       # the ghost expression mentions a local this path never bound: no ghost update on this path
+                    raise
+                ex.write(o2, slf.t, slf.ty.arg, fld, gv_); continue
             kname = lam.args.args[0].arg
             kv = Int(f'{kname}!g{next(pyvc_fresh)}'); o3 = o2.fork(); o3.env = dict(o2.env, **{kname: SV(kv, INT)}); o3.old, o3.old_env = o2.old, o2.old_env
             body = ex.spec_ev(o3, lam.body); o2.defs = o3.defs
@@ -1559,8 +1573,12 @@ def generate(ex, owner, name, kind=None):
             ex.write(o2, slf.t, slf.ty.arg, fld, na)
         for e in getattr(c, 'exit_asserts', []):      # proof steps at every normal exit: lemma uses and intermediate assertions (proved, then assumed)
             if not ex.uses(e): continue
-            if isinstance(e, ast.Call) and getattr(e.func, 'id', None) in ('use', 'use_if'): ex.use_lemma(o2, e, f'exit-path{npath}'); continue
-            g_ = ex.spec_bool(o2, e)
+            try:
+                if isinstance(e, ast.Call) and getattr(e.func, 'id', None) in ('use', 'use_if'): ex.use_lemma(o2, e, f'exit-path{npath}'); continue
+                g_ = ex.spec_bool(o2, e)
+            except Unsupported as ue_:
+                if str(ue_).startswith('name '): continue       # a proof step about locals this path never bound
+                raise
             if ex.proves(e): ex.oblige(o2, f'exit-assert[{ast.unparse(e)[:120]}]#path{npath}', g_, 'ghost')
             o2.pc.append(g_); o2.hints.append(g_)
         if ex.aspect is not None:      # clauses of the default aspect are proved in the default pass and may be assumed here
